@@ -265,7 +265,68 @@ func rulePCArg(c *Ctx, onlyFuncs func(fn *ssa.Function) bool, minArg, minCast in
 				}
 				cc := ci.Common()
 				callee := cc.StaticCallee()
-				if callee == nil || cc.IsInvoke() {
+				if cc.IsInvoke() {
+					// &x handed to a method of a codec held in an interface parameter: every concrete codec a caller
+					// passes for that parameter must use the pointer as a pointer to an x
+					prm, isPrm := cc.Value.(*ssa.Parameter)
+					if !isPrm || !isCodecIface(P, prm.Type()) {
+						continue
+					}
+					pi := -1
+					for i, q := range fn.Params {
+						if q == prm {
+							pi = i
+						}
+					}
+					for ai, a := range cc.Args {
+						X, ok := addrOfVar(a)
+						if !ok || pi < 0 {
+							continue
+						}
+						c.Rule("PC-ARG", "", 0)
+						key := fmt.Sprintf("%s/arg%d[&%s]", keys[ci], ai, typeKey(X))
+						bad, unk, seen := "", "", 0
+						for _, site := range callersOf(P, fn) {
+							sc := site.Common()
+							if pi >= len(sc.Args) {
+								continue
+							}
+							av := sc.Args[pi]
+							mi, isMI := av.(*ssa.MakeInterface)
+							if !isMI {
+								unk = "a caller passes a codec whose concrete type is not visible at the call (" + P.pos(site.Pos()) + ")"
+								continue
+							}
+							m := P.Prog.LookupMethod(mi.X.Type(), cc.Method.Pkg(), cc.Method.Name())
+							if m == nil || m.Blocks == nil {
+								unk = "method " + cc.Method.Name() + " of " + typeKey(mi.X.Type()) + " not found"
+								continue
+							}
+							seen++
+							// the method's parameters: receiver first, then the interface method's
+							Y := e.CE.ParamContract(m, ai+1, map[string]int64{})
+							ok2, dec := P.compat(Contract{Kind: CPtr, T: X}, Y)
+							if !dec {
+								unk = fmt.Sprintf("cannot relate &%s to the use %s makes of the pointer (%s)", typeKey(X), fnKey(m), Y)
+							} else if !ok2 {
+								bad = fmt.Sprintf("a pointer to a %s (%s) is passed to the codec parameter %s, for which %s passes a %s whose %s uses the pointer as %s", typeKey(X), P.layoutOf(X), prm.Name(), P.pos(site.Pos()), typeKey(mi.X.Type()), cc.Method.Name(), Y)
+							}
+						}
+						switch {
+						case bad != "":
+							c.Bad(key, P.pos(in.Pos()), bad)
+						case unk != "" || seen == 0:
+							if unk == "" {
+								unk = "no caller of " + fnKey(fn) + " found to say which codec is passed"
+							}
+							c.Unk(key, P.pos(in.Pos()), unk)
+						default:
+							c.OK(key, P.pos(in.Pos()), fmt.Sprintf("&%s passed to the codec parameter %s: each of the %d concrete codecs the callers pass uses the pointer as a pointer to such a variable", typeKey(X), prm.Name(), seen))
+						}
+					}
+					continue
+				}
+				if callee == nil {
 					continue
 				}
 				if !P.isModuleFunc(callee) && !isLinknameStub(callee) {
@@ -963,6 +1024,28 @@ func ruleBTArrMap(c *Ctx) {
 				src := rtypeSource(cs.Common.Args[0])
 				key := fnKey(fn) + "/backing-array-type"
 				c.Check(src != nil && recvPathOfValue(fn, src, 0) == "itemType", key, P.pos(cs.Instr.Pos()), "the backing array is allocated with rc.itemType", "the backing array is allocated with a type other than rc.itemType")
+				continue
+			}
+			// ... also when the allocation sits in a plain helper function that is handed the type
+			h := cs.Static
+			if h == nil || !P.isModuleFunc(h) || h.Blocks == nil || h.Signature.Recv() != nil {
+				continue
+			}
+			for _, hcs := range callsIn(h) {
+				if hcs.Static == nil || hcs.Static.Name() != "unsafe_NewArray" {
+					continue
+				}
+				key := fnKey(fn) + "/backing-array-type"
+				ok := false
+				if hp, isP := hcs.Common.Args[0].(*ssa.Parameter); isP {
+					for i, p := range h.Params {
+						if p == hp && i < len(cs.Common.Args) {
+							src := rtypeSource(cs.Common.Args[i])
+							ok = src != nil && recvPathOfValue(fn, src, 0) == "itemType"
+						}
+					}
+				}
+				c.Check(ok, key, P.pos(cs.Instr.Pos()), "the backing array is allocated (in "+fnKey(h)+") with the rc.itemType it is handed", "the backing array is allocated with a type other than rc.itemType")
 			}
 		}
 	}
